@@ -4,7 +4,7 @@ observed: exit status and the chunk-phase requests the server answered with 206.
 import os, random, subprocess, shutil
 import engine as E, build as B
 import zcklib as Z
-from props import updgen as U, rangeserver as RS
+from props import updgen as U, rangeserver as RS, filegen as FG
 
 def _run(cmd, **kw):
     """zckdl under a time limit: a run that does not end (e.g. the same range requested for ever) is a result (exit 124), not a crash of the check"""
@@ -60,6 +60,20 @@ def cases(ctx, tier, seed, kill=False, n=30):
                 force_early = (1 + (i - 4) % 3, '0a'[(i - 4) // 3])
             tb = tg[tname]
             m = rnd.choice([1, 2, 3, 10 ** 9, 10 ** 9])
+            # a few plain runs are reserved for a server that allows two ranges per request against a target with nothing in place:
+            # multipart responses followed by a single-range one on the same handle (odd number of ranges), and the back-off ladder
+            if not kill and 3 <= i < 7:
+                # the old file holds every second chunk of the new one: 5 or 4 missing extents, never adjacent, so a server that
+                # takes 2 (or 3) ranges per request answers multipart, multipart, single (or multipart 3, multipart 2)
+                nch = 9 if i % 2 else 8
+                cs = [FG.text(rnd, rnd.choice([20, 45, 80])) for _ in range(nch)]
+                cfg = dict(comp=rnd.choice(['none', 'zstd']), full=1, chunk=1)
+                Bz = Z.make(cs, **cfg); A = Z.make(cs[1::2], **cfg).build(); tag = 'alternate/%d' % nch
+                Bb = Bz.build(); hdr_total = len(Bz.header())
+                open(os.path.join(root, name), 'wb').write(Bb)
+                ap = os.path.join(ctx['work'], 'zA%d.zck' % i); open(ap, 'wb').write(A)
+                tg = U.targets(rnd, A, Bz)
+                m = 3 if i == 6 else 2; tname = rnd.choice(['absent', 'header-only']); tb = tg[tname]
             srv = server(m)
             cwd = os.path.join(ctx['work'], 'dl%d%s' % (i, 'k' if kill else '')); os.makedirs(cwd, exist_ok=True)
             tp = os.path.join(cwd, name)
